@@ -10,6 +10,7 @@ THEOREMS = [
     "Vinegar.C03.bare_error_page",
     "Vinegar.C03.raise_gives_500",
     "Vinegar.C03.c03Check_emit",
+    "Vinegar.C03.resultClauses_exact",
     "Vinegar.C03.dispatch_first",
     "Vinegar.C03.dispatch_calls",
     "Vinegar.C03.dispatch_raise",
